@@ -224,13 +224,19 @@ def inline(inference_state, names):
         tree_name = name.tree_name
         path = name.get_root_context().py__file__()
         s = replace_code
+        replaced = tree_name
+        if replaced.parent.type == 'trailer' and replaced.parent.children[0] == '.' \
+                and replaced.parent.get_next_sibling() is None:
+            # `foo.bar` is replaced as a whole, so what matters is the place
+            # where `foo.bar` is used.
+            replaced = replaced.parent.parent
         if rhs.type == 'testlist_star_expr' \
-                or tree_name.parent.type in EXPRESSION_PARTS \
-                or tree_name.parent.type in _PARENTHESIZED_PARENTS \
-                or tree_name.parent.type == 'dictorsetmaker' \
-                and tree_name.get_previous_sibling() == '**' \
-                or tree_name.parent.type == 'trailer' \
-                and tree_name.parent.get_next_sibling() is not None:
+                or replaced.parent.type in EXPRESSION_PARTS \
+                or replaced.parent.type in _PARENTHESIZED_PARENTS \
+                or replaced.parent.type == 'dictorsetmaker' \
+                and replaced.get_previous_sibling() == '**' \
+                or replaced.parent.type == 'trailer' \
+                and replaced.parent.get_next_sibling() is not None:
             s = '(' + replace_code + ')'
 
         of_path = file_to_node_changes.setdefault(path, {})
